@@ -6,7 +6,7 @@
    funds and history of calls (accepted or rejected).
    Models: coq/model/Wl.v (plain, flex), coq/model/WlTiered.v (tiered, tiered-flex,
    immutable); they follow the repaired code of the `fix:` commits 8ef08b3 and 034dca7. *)
-From LP Require Import Wl WlTiered Consts WlSchedProofs WlMemProofs WlTieredProofs WlTierInvProofs.
+From LP Require Import Wl WlTiered Consts WlSchedProofs WlMemProofs WlTieredProofs WlTierInvProofs WlQueryProofs.
 Import ListNotations.
 Local Open Scope N_scope.
 
@@ -288,6 +288,76 @@ Theorem C11_tiered_history_accounting :
   paid = tiers (t_limit w) * 100000000 /\ out = paid.
 Proof. exact t_history_accounting. Qed.
 
+(* Member { member } (flex kinds): answers the stored pair; an error exactly when the
+   well-formed address is not stored (flex) / only for a pair stored in the active stage
+   (tiered-flex) *)
+Theorem C11_flex_member_query_stored :
+  forall (valid : addr -> bool) a w c,
+  q_member valid a w = Ok c -> w_kind w = KFlex /\ In (a, c) (w_mem w).
+Proof. exact q_member_stored. Qed.
+
+Theorem C11_flex_member_query_error_means_absent :
+  forall (valid : addr -> bool) a w,
+  w_kind w = KFlex -> valid a = true -> q_member valid a w = Err -> ~ In a (keys (w_mem w)).
+Proof. exact q_member_missing. Qed.
+
+Theorem C11_tiered_flex_member_query_stored :
+  forall (valid : addr -> bool) now a w c,
+  tq_member valid now a w = Ok c ->
+  t_flex w = true /\ exists k, active_index now 0 (t_stages w) = Some k /\ In (k, a, c) (t_mem w).
+Proof. exact tq_member_stored. Qed.
+
+(* ================= admin list (all list kinds) ================= *)
+(* CanExecute { sender } answers true exactly for an address in the stored admin list; the
+   list changes only through update_admins (to exactly the given list) and freeze, both
+   of which need a mutable list and a sender in it *)
+Theorem C11_can_execute_iff_admin :
+  forall (valid : addr -> bool) a w b,
+  q_can_execute valid a w = Ok b -> (b = true <-> In a (w_admins w)).
+Proof. exact q_can_execute_iff. Qed.
+
+Theorem C11_admin_list_changes :
+  forall (valid : addr -> bool) self e o w w' ms,
+  exec valid self e o w = Ok (w', ms) ->
+  match o with
+  | OUpdAdmins l => w_mutable w = true /\ In (e_sender e) (w_admins w) /\ w_admins w' = l /\ w_mutable w' = true
+  | OFreeze => w_mutable w = true /\ In (e_sender e) (w_admins w) /\ w_admins w' = w_admins w /\ w_mutable w' = false
+  | _ => w_admins w' = w_admins w /\ w_mutable w' = w_mutable w
+  end.
+Proof. exact exec_admins_effect. Qed.
+
+Theorem C11_tiered_can_execute_iff_admin :
+  forall (valid : addr -> bool) a w b,
+  tq_can_execute valid a w = Ok b -> (b = true <-> In a (t_admins w)).
+Proof. exact tq_can_execute_iff. Qed.
+
+Theorem C11_tiered_admin_list_changes :
+  forall (valid : addr -> bool) self e o w w' ms,
+  t_exec valid self e o w = Ok (w', ms) ->
+  match o with
+  | TUpdAdmins l => t_mutable w = true /\ In (e_sender e) (t_admins w) /\ t_admins w' = l /\ t_mutable w' = true
+  | TFreeze => t_mutable w = true /\ In (e_sender e) (t_admins w) /\ t_admins w' = t_admins w /\ t_mutable w' = false
+  | _ => t_admins w' = t_admins w /\ t_mutable w' = t_mutable w
+  end.
+Proof. exact t_exec_admins_effect. Qed.
+
+(* AllStageMemberInfo { member }: one entry per configured stage; is_member is true exactly
+   when the pair is stored; for tiered-flex the number reported is the stored mint count *)
+Theorem C11_tiered_all_stage_member_info :
+  forall (valid : addr -> bool) a w l,
+  tq_all_member valid a w = Ok l ->
+  length l = length (t_stages w) /\
+  forall k b p, In (k, b, p) l ->
+    k < nlen (t_stages w) /\ (b = true <-> In (k, a) (tkeys (t_mem w))) /\
+    (t_flex w = true -> (b = true -> In (k, a, p) (t_mem w)) /\ (b = false -> p = 0)).
+Proof. exact tq_all_member_spec. Qed.
+
+(* whitelist-immutable: Config / Admin / PerAddressLimit report the creator and the two
+   numbers given at creation; there is no execute message *)
+Theorem C11_immutable_config_and_no_execute :
+  (forall sender pal bps, imm_config sender pal bps = (sender, pal, bps)) /\ imm_exec = Err.
+Proof. exact (conj imm_config_spec imm_exec_rejected). Qed.
+
 (* ================= whitelist-immutable ================= *)
 Theorem C11_immutable_consistent :
   forall funds ms l c,
@@ -401,5 +471,14 @@ Print Assumptions C11_tiered_remove_stage_effect.
 Print Assumptions C11_tiered_creation_fee_exact_and_forwarded.
 Print Assumptions C11_tiered_call_fee_exact_and_forwarded.
 Print Assumptions C11_tiered_history_accounting.
+Print Assumptions C11_flex_member_query_stored.
+Print Assumptions C11_flex_member_query_error_means_absent.
+Print Assumptions C11_tiered_flex_member_query_stored.
+Print Assumptions C11_can_execute_iff_admin.
+Print Assumptions C11_admin_list_changes.
+Print Assumptions C11_tiered_can_execute_iff_admin.
+Print Assumptions C11_tiered_admin_list_changes.
+Print Assumptions C11_tiered_all_stage_member_info.
+Print Assumptions C11_immutable_config_and_no_execute.
 Print Assumptions C11_immutable_consistent.
 Print Assumptions C11_immutable_includes_iff.
